@@ -22,9 +22,10 @@ var families = map[string]func(*Runner){
 	"more":         FamilyMore,
 	"tamperbundle": FamilyTamperBundle,
 	"http":         FamilyHTTP,
+	"cachetools":   FamilyCacheTools,
 }
 
-var familyOrder = []string{"happy", "crash", "subsets", "fault", "recrash", "instances", "startup", "dedup", "tamper", "pool", "clock", "replay", "more", "tamperbundle", "http"}
+var familyOrder = []string{"happy", "crash", "subsets", "fault", "recrash", "instances", "startup", "dedup", "tamper", "pool", "clock", "replay", "more", "tamperbundle", "http", "cachetools"}
 
 // TestCorpus records the scenario corpus. Environment: VERIF_OUT (ndjson file to
 // append to), VERIF_TIER, VERIF_SEED, VERIF_SHARD=i/n, VERIF_FAMILIES (comma
